@@ -44,6 +44,7 @@ fn check_view(st: &cache::Store, m: &Model, log: &[String], when: &str) {
 fn main() {
     let mut g = Rng(vp_seed());
     vp_hook();
+    failed_write_regression();      // finding_witness.rs
     let base = std::env::temp_dir().join(format!("vp_store_replay_{}_{}", std::process::id(), vp_seed()));
     let _ = std::fs::remove_dir_all(&base);
     let srcs = ["a.veryl", "b.veryl", "c.veryl"];
@@ -64,10 +65,11 @@ fn main() {
             plan.push((9, 0));
             if g.below(3) == 0 { plan.push((11, 0)); }
             for &f in &files { plan.push((if g.below(4) == 0 { 0 } else { 3 }, f)); if g.below(4) == 0 { plan.push((5 + g.below(4), f)); } }
+            if g.below(3) == 0 { plan.push((12, 0)); for &f in &files { if g.below(3) != 0 { plan.push((3, f)); } } }
             plan.push((9, 0));
             plan.push((11, 0));
         }
-        for _ in 0..(4 + g.below(14)) { plan.push((g.below(12), g.below(3) as usize)); }
+        for _ in 0..(4 + g.below(14)) { plan.push((g.below(13), g.below(3) as usize)); }
         for (kind, si) in plan {
             total += 1;
             let src = srcs[si];
@@ -127,6 +129,23 @@ fn main() {
                     m.next.clear();
                     // the store in memory shows the saved build, and gc left every referenced blob in place
                     check_view(&st, &m, &log, "after save");
+                }
+                12 => {
+                    // a save whose manifest write fails (transient io error: the store directory is moved away for the call).
+                    // Contract: an unchanged re-scan is skipped as usual; otherwise memory shows the new build, the disk keeps the old
+                    // manifest, and the store is NOT current any more, so that the next save writes (F-C29-save-failed-write).
+                    let skip = m.current && m.next == m.saved;
+                    log.push(format!("save() with the manifest write failing [contract: {}]", if skip { "skip the write" } else { "memory updated, not current" }));
+                    let away = base.join(format!("r{round}.away"));
+                    std::fs::rename(&root, &away).unwrap();
+                    st.save();
+                    std::fs::rename(&away, &root).unwrap();
+                    if !skip {
+                        m.saved = std::mem::take(&mut m.next);
+                        m.current = false;
+                    }
+                    m.next.clear();
+                    check_view(&st, &m, &log, "after failed save");
                 }
                 _ => {
                     let other = g.below(4) == 0;
